@@ -16,8 +16,14 @@ its `params_def` text adds (names, exact default values, int or float literal), 
 body in three modes (size an index / a number without `__index__` / no number) AND its signature (`size` first,
 where `{params_def}` is spliced in); the module-level dictionary links.  The Props file proves, by `decide` over these
 tables, what the property says about them (`table_names`, `signatures`, `template_signatures`, `alpha_default_values`,
-`dict_links_table`, `defaults`, `default_route`, `link_routes`, `function_links`).  The text of the loop
-`_generate_window_strategies` itself is code, hand-modelled (`ALV.C14.genStep`); its AST is pinned (LOOP_AST_SHA1).
+`dict_links_table`, `defaults`, `default_route`, `link_routes`, `function_links`).
+
+Translator T2b (`c14_tr.py`): the text of the loop `_generate_window_strategies` itself is read with `ast` on every run and
+emitted as a program VALUE (`ALV.C14.Loop.Prog`, deep embedding with an interpreter on the model's state) into
+lean/ALV/Gen/C14Src.lean, together with the imports its global names come from and the number of module-level calls.
+`src_generate_window_strategies_is_model` (rfl against `Loop.model`), `src_generate_window_strategies_row` (every
+iteration = the hand-written `genStep`, all states and rows) and `src_generated_is_model` (interpreter on the regenerated
+table = `generated`, by `decide`) replace the former sha1 pin of the loop's AST.
 
 Call layer (entry "pycall"): a call as the caller WRITES it — access route (`sd[name]`, `sd.name`, `sd(...)`,
 `sd.default(...)`, `sd.symm[name]`, `sd[name].periodic`, ...), positional / keyword / omitted arguments, the Python
@@ -48,6 +54,7 @@ from fractions import Fraction
 
 import common
 from common import err_kind, enc, dec
+from props import c14_tr
 
 ID = "C14"
 
@@ -523,6 +530,25 @@ def translate(entries, templates):
 
 
 def regenerate(eng=None):
+    """Both translators: T2 (table, templates -> Gen/Windows.lean) and T2b (the loop -> Gen/C14Src.lean).  Each keeps its
+    last committed file on a failure; the first failure is re-raised after both ran (= broken obligation)."""
+    out, first = [], None
+    for name, fn in (("T2", regenerate_t2), ("T2b", c14_tr.regenerate)):
+        try:
+            out.append("%s %s" % (name, fn(eng)))
+        except Exception as e:
+            out.append("%s FAILED" % name)
+            _last["failed_" + name] = True
+            if first is None:
+                first = e
+    if first is not None:
+        if isinstance(first, (TranslationError, c14_tr.TranslationError)):
+            raise TranslationError("%s [%s]" % (first, "; ".join(out)))
+        raise first
+    return "; ".join(out)
+
+
+def regenerate_t2(eng=None):
     """Rewrite lean/ALV/Gen/Windows.lean from the repo under test.  On a translation failure the
     previous (compilable) file is left in place and the error propagates (= broken obligation)."""
     path = os.path.join(common.LEAN, GEN_REL)
@@ -581,10 +607,24 @@ TRUSTED = [
     "a float argument is given to the model by its exact rational value (float size: only `== 1` and the TypeError matter; "
     "float alpha: p/q with p, q < 2^53 * 2^k converts back to the same double); inf / nan / complex arguments and ints "
     "beyond float range are not modelled",
-    "the loop `_generate_window_strategies` is hand-modelled; the check pins the sha1 of its AST, an edit there is a broken "
-    "obligation until the model is re-read against it",
-    "hand-written Lean model ALV/Model/C14.lean of _generate_window_strategies and of the part of StrategyDict it uses "
-    "(modelled, not verified: exec, MultiKeyDict internals, function attributes)",
+    "translator T2b (harness/props/c14_tr.py: ast -> lean/ALV/Gen/C14Src.lean) reads `_generate_window_strategies` as a program "
+    "of ALV.C14.Loop (13 statement forms; anything else is a TranslationError); it trusts: CPython's `ast`; the statement "
+    "recognisers (local variables bound by role: a renamed variable is the same program); the Python semantics the "
+    "interpreter lean/ALV/Model/C14Loop.lean gives each form — chained assignment evaluates the value first and assigns the "
+    "targets left to right, `for` over a list display, `break` leaves the inner loop only, `d.get(k, dflt)`, `d.setdefault`, "
+    "`reduce(lambda f, d: d(f), decs, f0)` applies the decorators in list order, `exec(code, ns, ns)` of a template that is one "
+    "`def {sname}` leaves one new function object at ns[sname]; and the vocabulary mapping: `sdict.strategy(*names)(f)` is "
+    "`sdict[names] = f` (returns the dictionary), `format_docstring(...)(f)` returns f, `StrategyDict.__setitem__` / "
+    "`__getitem__` / `default` are `SDict.setKeys` / `get` / `default` (modelled, not verified: MultiKeyDict internals), "
+    "function attributes are per-object maps; module context: `from X import n` binds n to X.n (one binding per name checked), "
+    "the function is called at module level after the table and templates exist; a function object is identified with (row, "
+    "template it was exec'ed from), which is object identity as long as each template is exec'ed at most once per row (true of "
+    "the loop as written; on a mutant that execs window's template twice the interpreter cannot tell the two objects apart).  "
+    "Cross-checked on every run: the state the "
+    "interpreter computes from the REGENERATED program and table is compared with the registry, identities and attributes of "
+    "the running module (extra_checks `... = regenerated loop`), so the interpreter's reading is tied also on mutated loops",
+    "hand-written Lean model ALV/Model/C14.lean (`genStep`, `generated`, `call`): now proved equal to the run of the regenerated "
+    "loop (`src_generate_window_strategies_row`, `src_generated_is_model`), no longer pinned by a hash",
     "Float instance of TrigField (libm cos/sin/pow through the Lean runtime) is only used on the correspondence side; "
     "the theorems are over the reals",
     "integer-typed sub-expressions of a formula such as (size + 2) are computed in the number class (exact below 2^53)",
@@ -613,14 +653,38 @@ ASSUMPTIONS = [
     "not counted as a violation); the tie accepts KeyError or the rect list there and counts it in the histogram",
 ]
 MANIFEST = {"technique": "Lean 4 proofs over definitions regenerated from the repo's formula table, parameter lists, code "
-                         "templates (body and signature) and dictionary links (translator) + model of the Python call "
+                         "templates (body and signature) and dictionary links (translator T2) and over the loop "
+                         "_generate_window_strategies regenerated as a program value with an interpreter (translator T2b, "
+                         "harness/props/c14_tr.py; src_*_is_model theorems) + model of the Python call "
                          "layer + Float twin differential correspondence + exact float scans",
-            "note": "61 theorems: registry / links / defaults / signatures by decide over the regenerated tables; call layer "
+            "note": "65 theorems: the regenerated loop = the model (program equality by rfl; every iteration = genStep for all "
+                    "states and rows; run on the regenerated table = `generated` by decide); registry / links / defaults / signatures by decide over the regenerated tables; call layer "
                     "(positional = keyword, omitted = default, bool = int, spelling-independence over R, rejected sizes, "
                     "alpha=None, malformed shapes); closed forms, prefix, symmetry, range, COLA for all sizes over R; "
                     "histories.  Known finding: blackman end sample -2**-54 for some alphas."}
 
-LOOP_AST_SHA1 = "93fecf35eb15520121969fb0560df4c61667d224"      # ast.dump of the body of _generate_window_strategies
+TRANSLATED = {
+    "translator": "harness/props/c14_tr.py -> lean/ALV/Gen/C14Src.lean (T2b, deep: program value of ALV.C14.Loop.Prog + interpreter "
+                  "Model/C14Loop.lean); harness/props/c14.py::regenerate_t2 -> lean/ALV/Gen/Windows.lean (T2, shallow: generic Lean "
+                  "definitions)",
+    "under_translator": {
+        "lazy_analysis._generate_window_strategies": "T2b deep: every statement of the loop, the imports of pi/sin/cos/xrange/"
+            "reduce/format_docstring, the single module-level call; theorems src_generate_window_strategies_is_model, "
+            "src_generate_window_strategies_row, src_generate_window_strategies_table, src_generated_is_model",
+        "window._content_generation_table / window._code_template / wsymm._code_template / module-level dictionary links": "T2 "
+            "(since round 2): formulas, parameter lists, template bodies in three modes and signatures, links",
+    },
+    "not_translated": {
+        "lazy_core.StrategyDict.strategy / __setitem__ / __getitem__ / __call__ / default (and MultiKeyDict)": "class machinery "
+            "with `super()`, `vars(self)`, `setattr`, deletion of keys: outside the small subset; the vocabulary `SDict.setKeys` / "
+            "`get` / `default` stays hand-modelled and tied by the registry / identity checks (that slice of lazy_core belongs to "
+            "the StrategyDict property)",
+        "lazy_text.format_docstring": "only changes __doc__; modelled as the identity on function objects (the docstrings' math "
+            "is checked separately by the docmath cases)",
+        "window._doc_kwargs (the lambda that builds the docstrings)": "text only, no effect on the registry or the samples",
+        "Python's argument binding (ALV.C14.bind / pyCall)": "interpreter semantics, not a function of the repo",
+    },
+}
 TOL = Fraction(1, 10 ** 12)
 # symmetry of the trigonometric windows on floats: cos(2 pi n / N) against cos(2 pi (N - n) / N) — the two arguments are
 # rounded separately, the samples differ by a few units in the last place (largest seen for sizes up to 4096: 7.8e-16)
@@ -2375,23 +2439,42 @@ def extra_checks(eng):
     chk("wsymm.symm is wsymm", wsymm.symm is wsymm)
     chk("window.periodic is window", window.periodic is window)
     chk("wsymm.periodic is window", wsymm.periodic is window)
+    def against(reg, tag):
+        for dn, sd in sds.items():
+            model_items = {k: tuple(v) for k, v in reg[dn]["items"]}
+            impl_keys = _keys(sd)
+            chk("%s keys = %s keys" % (dn, tag), impl_keys == set(model_items),
+                "impl %s model %s" % (sorted(impl_keys), sorted(model_items)))
+            ok, bad = True, []
+            for k in impl_keys & set(model_items):
+                sname, symm = model_items[k]
+                f = sd[k]
+                # identity: same object as the dictionary's primary entry; shared with window iff not symm
+                if not (f is sd[sname] and getattr(sd, k, None) is f and f.__name__ == sname and
+                        ((f is window[sname]) == (not symm))):
+                    ok = False
+                    bad.append(k)
+            chk("%s key -> function identity = %s" % (dn, tag), ok, "keys %s" % bad)
+            d = reg[dn]["default"]
+            try:
+                dok = d is not None and sd.default is obj(d)
+            except KeyError:
+                dok = False
+            chk("%s.default = %s default" % (dn, tag), dok, str(d))
+        # function attributes .periodic / .symm
+        for attr in ("periodic", "symm"):
+            bad = []
+            for f, g in reg[attr]:
+                try:
+                    if getattr(obj(f), attr) is not obj(g):
+                        bad.append(f)
+                except (KeyError, AttributeError) as e:
+                    bad.append(f + [repr(e)])
+            chk("function .%s links = %s" % (attr, tag), not bad, str(bad))
+
+    against(reg, "model")
     for dn, sd in sds.items():
-        model_items = {k: tuple(v) for k, v in reg[dn]["items"]}
         impl_keys = _keys(sd)
-        chk("%s keys = model keys" % dn, impl_keys == set(model_items),
-            "impl %s model %s" % (sorted(impl_keys), sorted(model_items)))
-        ok, bad = True, []
-        for k in impl_keys & set(model_items):
-            sname, symm = model_items[k]
-            f = sd[k]
-            # identity: same object as the dictionary's primary entry; shared with window iff not symm
-            if not (f is sd[sname] and getattr(sd, k, None) is f and f.__name__ == sname and
-                    ((f is window[sname]) == (not symm))):
-                ok = False
-                bad.append(k)
-        chk("%s key -> function identity = model" % dn, ok, "keys %s" % bad)
-        d = reg[dn]["default"]
-        chk("%s.default = model default" % dn, d is not None and sd.default is obj(d), str(d))
         # spec side of the registry (documented names)
         bad = []
         for k, r in reg["spec"][dn]:
@@ -2407,16 +2490,17 @@ def extra_checks(eng):
             if not (f is (wsymm if r[1] else window)[r[0]]):
                 bad.append(k)
         chk("%s documented names resolve to the documented strategy" % dn, not bad, "names %s" % bad)
-    # function attributes .periodic / .symm
-    for attr in ("periodic", "symm"):
-        bad = []
-        for f, g in reg[attr]:
-            try:
-                if getattr(obj(f), attr) is not obj(g):
-                    bad.append(f)
-            except (KeyError, AttributeError) as e:
-                bad.append(f + [repr(e)])
-        chk("function .%s links = model" % attr, not bad, str(bad))
+    # the REGENERATED loop (translator T2b), run by the interpreter of Model/C14Loop.lean on the regenerated table,
+    # against the running module: cross-check of the translator and of the interpreter's reading of each statement
+    try:
+        sreg = eng.driver.batch([{"id": ID, "entry": "srcregistry"}])[0]["ok"]
+        chk("regenerated loop: the interpreter gives it a state (it does not raise, stays inside what T2 assumes)",
+            sreg is not None, "Loop.runTable = none")
+        if sreg is not None and not _last.get("failed_T2b"):      # (after a TranslationError the file is the last good one)
+            against(sreg, "regenerated loop")
+            eng.count("regenerated_loop", "state = hand-written `generated`: %s" % sreg["is_model"])
+    except Exception as e:
+        chk("regenerated loop readable", False, "%s: %s" % (type(e).__name__, e))
     allf = {id(f): f for sd in sds.values() for f in sd}
     bad = [f.__name__ for f in allf.values()
            if not (getattr(f, "periodic", None) is window[f.__name__] and getattr(f, "symm", None) is wsymm[f.__name__])]
@@ -2456,18 +2540,19 @@ def extra_checks(eng):
         chk("dictionary links = regenerated table (theorem `dict_links_table`)", not bad and len(tab["dict_links"]) == 4, str(bad))
     except Exception as e:
         chk("regenerated tables readable", False, "%s: %s" % (type(e).__name__, e))
-    # the hand-written model `genStep` / `generated` is a model of THIS text of `_generate_window_strategies`
+    # translator T2b (the loop): self-test on edited copies of the source text; committed file = regenerated file
     try:
-        import hashlib
-        read_source()
-        loop = _src.get("loop")
-        body = [n for n in loop.body if not (isinstance(n, ast.Expr) and isinstance(n.value, ast.Constant)
-                                             and isinstance(n.value.value, str))] if loop is not None else None
-        h = hashlib.sha1(ast.dump(ast.Module(body, [])).encode()).hexdigest() if body is not None else "missing"
-        chk("_generate_window_strategies is the text the hand-written model (ALV.C14.genStep) was written for", h == LOOP_AST_SHA1,
-            "sha1 of the AST %s, modelled %s: re-read the loop, update lean/ALV/Model/C14.lean and LOOP_AST_SHA1" % (h, LOOP_AST_SHA1))
+        import subprocess
+        good = subprocess.run(["git", "-C", common.VERIF, "show", "HEAD:lean/" + c14_tr.GEN_REL.replace(os.sep, "/")],
+                              capture_output=True, text=True, timeout=30)
+        committed = good.stdout if good.returncode == 0 and good.stdout else open(os.path.join(common.LEAN, c14_tr.GEN_REL)).read()
+        if common.REPO != "/repo":
+            committed = None          # a scratch copy under test: the committed file speaks about /repo
+        for name, ok, detail in c14_tr.selftest(committed):
+            chk(name, ok, detail)
     except Exception as e:
-        chk("_generate_window_strategies readable", False, "%s: %s" % (type(e).__name__, e))
+        chk("translator-selftest", False, "%s: %s" % (type(e).__name__, e))
+    eng.extra["translated"] = TRANSLATED
     # the translator read the same table / templates the running module uses
     try:
         entries, templates = read_source()
